@@ -298,6 +298,22 @@ def _real_run(case):
                 out['clocks'] = ms[0].clocks
                 out['sub_times'] = [list(m.times) for m in ms]
                 out['coupler_time'] = c.time.tolist()
+        elif case['entry'] == 'nested':
+            ms = [_mk_model(case['X0'][i], t0, case['props'][i], case['stops'][i], log, case['ravel'][i], case['dkind'], 'm%d' % i, clock=clock)
+                  for i in range(len(case['X0']))]
+            cps = []
+            c = build_topology(case['topology'], ms, Coupler, couplers=cps)
+            c.time = np.array([t0])
+            try:
+                c.solve(sim, solverType=it, minDtFrac=mn, maxDtFrac=mx)
+            finally:
+                out['times'] = ms[0].times
+                out['fp_bad'] = [b for m in ms for b in m.fp_bad]
+                out['clock_bad'] = [b for m in ms for b in m.clock_bad]
+                out['clocks'] = ms[0].clocks
+                out['sub_times'] = [list(m.times) for m in ms]
+                out['coupler_time'] = c.time.tolist()
+                out['inner_times'] = [np.asarray(q.time, float).tolist()[1:] for q in cps if q is not c]
         else:   # DESolver used directly on a flat array
             s = DESolver(it, minDtFrac=mn, maxDtFrac=mx)
             props, stops = case['props'][0], case['stops'][0]
@@ -347,12 +363,53 @@ def _real_run(case):
     return out
 
 
+def gen_topology(rng, n, depth):
+    """nested list over the leaf numbers 0..n-1 in order: a list is a Coupler, an int a leaf model; `depth` levels of Couplers
+    are reached when n allows (Coupler([Coupler([0, 1]), 2]) = [[0, 1], 2])"""
+    leaves = list(range(n))
+
+    def split(items, d):
+        if d <= 1 or len(items) < 2:
+            return list(items)
+        k = rng.randint(1, min(3, len(items)))
+        cuts = sorted(rng.sample(range(1, len(items)), k - 1)) if k > 1 else []
+        parts = [items[a:b] for a, b in zip([0] + cuts, cuts + [len(items)])]
+        out, nested = [], False
+        for part in parts:
+            if len(part) == 1 and (nested or rng.random() < 0.6) and len(parts) > 1:
+                out.append(part[0])
+            else:
+                out.append(split(part, d - 1)); nested = True
+        return out
+    for _ in range(20):
+        t = split(leaves, depth)
+        if topo_depth(t) >= min(depth, 2):
+            return t
+    return [leaves[:-1], leaves[-1]] if n >= 2 else [[0]]
+
+
+def topo_depth(t):
+    return 0 if isinstance(t, int) else 1 + max([topo_depth(k) for k in t] + [0])
+
+
+def build_topology(topo, leaves, Coupler, top_cls=None, couplers=None):
+    """the real objects: Coupler (or top_cls at the root) over the leaf models"""
+    def go(t, root):
+        if isinstance(t, int):
+            return leaves[t]
+        c = (top_cls if (root and top_cls) else Coupler)([go(k, False) for k in t])
+        if couplers is not None:
+            couplers.append(c)
+        return c
+    return go(topo, True)
+
+
 def gen_case(rng):
     mode = rng.choice(['dyadic', 'dyadic', 'general'])
     t0, sim, mn, mx = gen_config(rng, mode)
     span = (t0 + sim) - t0
-    entry = rng.choice(['model', 'model', 'coupler', 'desolver'])
-    nm = rng.choice([2, 2, 3]) if entry == 'coupler' else 1
+    entry = rng.choice(['model', 'model', 'coupler', 'desolver', 'nested'])
+    nm = rng.choice([2, 2, 3]) if entry == 'coupler' else rng.choice([2, 3, 3, 4, 5]) if entry == 'nested' else 1
     props, stops = [], []
     p0, s0 = gen_script(rng, mode, span, mn, mx)
     for i in range(nm):
@@ -373,8 +430,11 @@ def gen_case(rng):
         X0 = [gen_state(rng, allow_nd=ravel[i]) for i in range(nm)]
     if entry != 'desolver':      # the clock entry (f = 1, starts at t0) goes last; DESolver entry: appended in _real_run
         X0 = [X + [float(t0)] for X in X0]
-    return dict(mode=mode, t0=t0, sim=sim, mn=mn, mx=mx, entry=entry, iterator=rng.choice(['euler', 'rk4']),
+    case = dict(mode=mode, t0=t0, sim=sim, mn=mn, mx=mx, entry=entry, iterator=rng.choice(['euler', 'rk4']),
                 wrap=rng.random() < 0.4, props=props, stops=stops, ravel=ravel, X0=X0, dkind=rng.choice(['const', 'decay']), clock=True)
+    if entry == 'nested':       # a Coupler as one of the models of another Coupler, 2-3 levels
+        case['topology'] = gen_topology(rng, nm, rng.choice([2, 2, 3]))
+    return case
 
 
 def witnesses():
@@ -405,6 +465,8 @@ def describe(case):
     d['proposals'] = [[repr(v) for v in p] for p in case['props']]
     d['stops'] = case['stops']
     d['state_shapes'] = [[list(np.shape(x)) for x in X] for X in case['X0']]
+    if 'topology' in case:
+        d['topology'] = case['topology']
     return d
 
 
@@ -417,7 +479,8 @@ def oracle(res, case, run, desc):
     site = '%s-%s' % (case['entry'], case['iterator'])
     props, stops = effective_script(case)
     if run['err']:
-        res.violate('solver-raised-' + site, 'the solver raised on a numeric proposal script: %s' % run['err'], desc, run['err'], 'no exception')
+        res.violate('solver-raised-' + site, 'the solver raised on a numeric proposal script%s: %s' % (
+            ' (models coupled as %s: a Coupler among the models of a Coupler)' % (case['topology'],) if 'topology' in case else '', run['err']), desc, run['err'], 'no exception')
         return
     nbound = math.ceil(1 / mn) + 2 if mn <= mx else math.ceil(1 / min(mn, mx)) + 2
     if run['capped']:
@@ -502,12 +565,16 @@ def oracle(res, case, run, desc):
         b = run['fp_bad'][0]
         res.violate('callback-state-structure-' + case['entry'], 'callback %s of %s got a state with structure/shapes %s, the model supplied %s' % (b[1], b[0], b[2], b[3]), desc, repr(b[2]), repr(b[3]))
     # Coupler: every model saw every step, and the coupler clock recorded them
-    if case['entry'] == 'coupler' and 'sub_times' in run:
+    if case['entry'] in ('coupler', 'nested') and 'sub_times' in run:
+        pre = 'coupler' if case['entry'] == 'coupler' else 'nested-coupler'
         for i, st in enumerate(run['sub_times']):
             if [float(t) for t in st] != times:
-                res.violate('coupler-submodel-steps', 'coupled model %d saw other accepted times than model 0' % i, desc, st[:5], times[:5])
+                res.violate(pre + '-submodel-steps', 'coupled model %d saw other accepted times than model 0' % i, desc, st[:5], times[:5])
         if [float(t) for t in run['coupler_time'][1:]] != times:
-            res.violate('coupler-clock', 'Coupler.time does not record the accepted times', desc, run['coupler_time'][:5], times[:5])
+            res.violate(pre + '-clock', 'Coupler.time does not record the accepted times', desc, run['coupler_time'][:5], times[:5])
+        for q in run.get('inner_times', []):
+            if [float(t) for t in q] != times:
+                res.violate('nested-coupler-inner-clock', 'the time record of a Coupler that is a sub-model of another Coupler does not hold the accepted times', desc, q[:5], times[:5])
 
 
 # ====================================================================== flatten correspondence + oracle
@@ -1108,6 +1175,290 @@ def hist_cases(ctx, res, oracle_only, nmul=1):
 
 
 
+# ====================================================================== nested couplers, several couplers alive at once
+# A Coupler is a GenericModel, so it can be one of the models of another Coupler.  Cases: a FOREST of 1-3 model trees of depth
+# 1-3 (Couplers over leaf models with differently shaped states from the leaf generator above), all alive at the same time,
+# and a sequence of operations on them in any interleaving:
+#   F i  flattenX of tree i (the vector is kept)      U i  unflattenX of the kept vector by tree i's state
+#   V i  unflattenX of ANOTHER vector of that length (2*v+1: what an iterator returns; sometimes longer / shorter)
+# Every leaf entry carries its own distinguishable numbers (tree, leaf, entry, element), so that a value delivered to the wrong
+# leaf is seen.  The same sequence goes through the model (KawinV.Flatten.runOps: Couplers are objects with an identity, the
+# `_sizeRef` attributes live in a heap; theorems nested_unflatten_flatten, runOps_roundtrip, unflattenT_shapes).  A few cases use
+# the SAME Coupler object twice (in two trees / twice in one tree) with differently sized states: there the sizes ARE shared
+# (one object), the round trip is not required, and implementation and model must still agree — this ties the identity/heap
+# semantics (and with it the shared-size-list model of theorem shared_sizes_break_nesting) to Python's.
+def _shape_list(rng, ravel):
+    return [list(np.shape(x)) for x in gen_state(rng, allow_nd=ravel)]
+
+
+def gen_objtree(rng, depth, counter, pool, alias):
+    """['N', id, [children]] with children ['L', ravel, shapes] or nodes; depth = levels of Couplers"""
+    kids = []
+    for _ in range(rng.choice([1, 2, 2, 2, 3])):
+        if depth > 1 and rng.random() < 0.6:
+            if alias and pool and rng.random() < 0.5:
+                kids.append(_restate(rng, rng.choice(pool)))        # the same Coupler OBJECT again, other states
+            else:
+                kids.append(gen_objtree(rng, depth - 1, counter, pool, alias))
+        else:
+            ravel = rng.random() < 0.3
+            kids.append(['L', ravel, _shape_list(rng, ravel)])
+    if depth > 1 and all(k[0] == 'L' for k in kids) and rng.random() < 0.7:
+        kids[rng.randrange(len(kids))] = gen_objtree(rng, depth - 1, counter, pool, alias)
+    counter[0] += 1
+    t = ['N', counter[0], kids]
+    pool.append(t)
+    return t
+
+
+def _restate(rng, t):
+    """the same objects (ids, leaf kinds), new leaf state shapes"""
+    if t[0] == 'L':
+        return ['L', t[1], _shape_list(rng, t[1])]
+    return ['N', t[1], [_restate(rng, k) for k in t[2]]]
+
+
+def tree_ids(t):
+    return [] if t[0] == 'L' else [t[1]] + [i for k in t[2] for i in tree_ids(k)]
+
+
+def tree_depth(t):
+    return 0 if t[0] == 'L' else 1 + max([tree_depth(k) for k in t[2]] + [0])
+
+
+def tree_leaves(t):
+    return [t] if t[0] == 'L' else [l for k in t[2] for l in tree_leaves(k)]
+
+
+def gen_nested_case(rng):
+    alias = rng.random() < 0.12
+    counter, pool, forest = [0], [], []
+    for _ in range(rng.choice([1, 2, 2, 2, 3])):
+        if alias and pool and rng.random() < 0.5:
+            forest.append(_restate(rng, rng.choice([t for t in pool])))
+        else:
+            forest.append(gen_objtree(rng, rng.choice([1, 2, 2, 3]), counter, pool, alias))
+    n = len(forest)
+    ops = []
+    style = rng.choice(['pairs', 'interleaved', 'interleaved', 'random'])
+    if style == 'pairs':
+        for i in rng.sample(range(n), n):
+            ops += [['F', i], ['U', i]]
+    elif style == 'interleaved':       # flattenX of every tree first, then the unflattenX calls (the order an outer loop over models gives)
+        order = rng.sample(range(n), n)
+        ops += [['F', i] for i in order]
+        ops += [[rng.choice(['U', 'U', 'V']), i] for i in rng.sample(range(n), n)]
+        ops += [['U', order[0]]]
+    for _ in range(rng.choice([0, 2, 4, 6]) if style != 'random' else rng.choice([4, 7, 10])):
+        ops.append([rng.choice(['F', 'F', 'U', 'U', 'V']), rng.randrange(n)])
+    for o in ops:
+        if o[0] == 'V':
+            o.append(rng.choice([0, 0, 0, 0, 2, -1]))       # length of the vector relative to the tree's own
+    return dict(kind='nested-flat', forest=forest, ops=ops)
+
+
+def nested_witnesses():
+    """fixed cases that run first on every run: the topologies of theorem shared_sizes_break_nesting /
+    shared_sizes_break_interleaving and a depth-3 tree"""
+    a = ['L', False, [[], [3]]]; b = ['L', False, [[4], [], [2]]]; c = ['L', True, [[2, 5]]]; d = ['L', False, [[]]]
+    return [dict(kind='nested-flat', forest=[['N', 1, [['N', 2, [a, b]], c]]], ops=[['F', 0], ['U', 0], ['V', 0, 0]]),
+            dict(kind='nested-flat', forest=[['N', 1, [['N', 2, [a, b]]]]], ops=[['F', 0], ['U', 0]]),
+            dict(kind='nested-flat', forest=[['N', 1, [c, ['N', 2, [a, ['N', 3, [b, d]]]]]]], ops=[['F', 0], ['U', 0], ['V', 0, 0]]),
+            dict(kind='nested-flat', forest=[['N', 1, [a, b]], ['N', 2, [c, d]]], ops=[['F', 0], ['F', 1], ['U', 0], ['U', 1]]),
+            dict(kind='nested-flat', forest=[['N', 1, [['N', 2, [a, d]], b]], ['N', 3, [d, ['N', 4, [c, a]]]]],
+                 ops=[['F', 0], ['F', 1], ['U', 0], ['V', 1, 0], ['F', 0], ['U', 1], ['U', 0]])]
+
+
+def _tagged_state(t, tag):
+    """the state of a (sub)tree as the Python nested list, every entry with its own few-bit dyadic numbers"""
+    if t[0] == 'L':
+        tag[0] += 1
+        X = []
+        for e, sh in enumerate(t[2]):
+            base = 32.0 * tag[0] + 4.0 * e
+            X.append(base + 0.5 if not sh else (base + 0.25 * np.arange(int(np.prod(sh)), dtype=float) + 1.0).reshape(tuple(sh)))
+        return X
+    return [_tagged_state(k, tag) for k in t[2]]
+
+
+def _enc_tree(t, X):
+    if t[0] == 'L':
+        return 'L ' + enc_state(X)
+    return 'N %d %d %s' % (t[1], len(X), ' '.join(_enc_tree(k, x) for k, x in zip(t[2], X))) if len(X) else 'N %d 0' % t[1]
+
+
+def _same_tree(t, X, Y):
+    """Y is X: same nesting, per leaf same structure / shapes / numbers.  Returns None or (leaf path, what)"""
+    if t[0] == 'L':
+        if not isinstance(Y, (list, tuple)) or cfp(Y) != cfp(X):
+            return ('structure', repr(cfp(Y)), repr(cfp(X)))
+        if not all(np.array_equal(np.asarray(u, float), np.asarray(v, float)) for u, v in zip(X, Y)):
+            return ('values', [np.asarray(v, float).tolist() for v in Y], [np.asarray(v, float).tolist() for v in X])
+        return None
+    if not isinstance(Y, (list, tuple)) or len(Y) != len(t[2]):
+        return ('structure', 'Coupler %d returned %s sub-states' % (t[1], len(Y) if isinstance(Y, (list, tuple)) else type(Y).__name__), '%d sub-models' % len(t[2]))
+    for k, x, y in zip(t[2], X, Y):
+        r = _same_tree(k, x, y)
+        if r:
+            return r
+    return None
+
+
+def run_nested_flat(case):
+    """the operations on the real classes.  Returns (impl answer string or None, list of oracle findings)"""
+    vlib.use_repo()
+    from kawin.GenericModel import GenericModel, Coupler
+    objs = {}
+
+    def leafmodel(ravel):
+        m = GenericModel()
+        if ravel:
+            m.flattenX = lambda X: np.concatenate([np.ravel(np.asarray(xi, float)) for xi in X])
+        return m
+
+    def build(t):
+        if t[0] == 'L':
+            return leafmodel(t[1])
+        if t[1] not in objs:
+            objs[t[1]] = Coupler([build(k) for k in t[2]])
+        return objs[t[1]]
+    forest = case['forest']
+    tops = [build(t) for t in forest]
+    tag = [0]
+    Xs = [_tagged_state(t, tag) for t in forest]
+    ids_all = [i for t in forest for i in tree_ids(t)]
+    distinct = len(set(ids_all)) == len(ids_all)
+    kept = [None] * len(forest)
+    since = [set() for _ in forest]       # trees flattened since tree i was flattened
+    outs, finds = [], []
+    for k, op in enumerate(case['ops']):
+        i = op[1]
+        t, top, X = forest[i], tops[i], Xs[i]
+        cls = 'nested-coupler' if tree_depth(t) >= 2 else 'interleaved-couplers' if since[i] else 'coupler'
+        if op[0] == 'F':
+            try:
+                flat = np.asarray(top.flattenX(X), float)
+            except Exception as e:
+                finds.append(('%s-flattenX-raised' % cls, 'operation %d: flattenX of tree %d raised %s: %s' % (k, i, type(e).__name__, e), repr(e), 'no exception'))
+                return None, finds
+            kept[i] = flat
+            since[i] = set()
+            for j in range(len(forest)):
+                if j != i:
+                    since[j].add(i)
+            sizes = [getattr(objs[c], '_sizeRef', None) for c in tree_ids(t)]
+            outs.append('F %s %d %s' % (enc_list(flat.tolist()), len(sizes), ' '.join('N' if z is None else vlib.enc_ilist(z) for z in sizes)))
+            if distinct:
+                tot = int(sum(int(np.prod(sh)) for l in tree_leaves(t) for sh in l[2]))
+                rs = getattr(top, '_sizeRef', None)
+                if flat.ndim != 1 or len(flat) != tot or rs is None or sum(rs) != tot:
+                    finds.append(('%s-sizeref' % cls, 'operation %d: flattenX of tree %d gave a vector of shape %s and sizes %s on record, the state has %d numbers' % (
+                        k, i, flat.shape, rs, tot), [list(flat.shape), rs], tot))
+            continue
+        if op[0] == 'U':
+            if kept[i] is None:
+                outs.append('B'); continue
+            v = kept[i]
+        else:
+            tot = int(sum(int(np.prod(sh)) for l in tree_leaves(t) for sh in l[2]))
+            base = kept[i] if kept[i] is not None and len(kept[i]) == tot else np.arange(tot, dtype=float)
+            v = base * 2.0 + 1.0
+            v = np.concatenate([v, [7.5] * op[2]]) if op[2] > 0 else v[:max(0, tot + op[2])]
+        try:
+            Y = top.unflattenX(v, X)
+            err = None
+        except Exception as e:
+            Y, err = None, '%s: %s' % (type(e).__name__, e)
+        outs.append('U E' if Y is None else 'U ' + _enc_tree(t, Y))
+        if not distinct or kept[i] is None:
+            continue      # same object twice: shared by construction; never flattened: AttributeError is the expected answer
+        what = 'unflattenX(flattenX(X), X)' if op[0] == 'U' else 'unflattenX(v, X) for another vector v of %s length' % (
+            'the same' if op[2] == 0 else 'greater' if op[2] > 0 else 'smaller')
+        ctx_txt = ' (flattenX of tree(s) %s was called in between)' % sorted(since[i]) if since[i] else ''
+        if op[0] == 'V' and op[2] < 0:
+            continue      # too short: may fail
+        if Y is None:
+            finds.append(('%s-flatten-roundtrip' % cls if op[0] == 'U' else '%s-unflatten-raised' % cls,
+                          'operation %d: %s of tree %d raised %s%s' % (k, what, i, err, ctx_txt), err, 'the state as supplied'))
+            continue
+        if op[0] == 'U':
+            r = _same_tree(t, X, Y)
+            if r:
+                finds.append(('%s-flatten-roundtrip' % cls, 'operation %d: %s of tree %d is not X%s: %s %s, supplied %s' % (k, what, i, ctx_txt, r[0], str(r[1])[:200], str(r[2])[:200]),
+                              r[1], r[2]))
+        else:
+            # same nesting and shapes as supplied, numbers of v in order
+            def shp(t, Y):
+                if t[0] == 'L':
+                    return cfp(Y) if isinstance(Y, (list, tuple)) else ('not-a-list',)
+                return tuple(shp(k, y) for k, y in zip(t[2], Y)) + (len(Y),) if isinstance(Y, (list, tuple)) else ('not-a-list',)
+            if shp(t, Y) != shp(t, X):
+                finds.append(('%s-unflatten-structure' % cls, 'operation %d: %s of tree %d has not the structure / shapes supplied%s' % (k, what, i, ctx_txt), repr(shp(t, Y)), repr(shp(t, X))))
+            else:
+                def flatvals(t, Y):
+                    if t[0] == 'L':
+                        return [float(z) for y in Y for z in np.ravel(np.asarray(y, float))]
+                    return [z for k, y in zip(t[2], Y) for z in flatvals(k, y)]
+                tot = len(flatvals(t, X))
+                if flatvals(t, Y) != [float(z) for z in v[:tot]]:
+                    finds.append(('%s-unflatten-values' % cls, 'operation %d: %s of tree %d does not hand the numbers of v to the leaves in order%s' % (k, what, i, ctx_txt),
+                                  flatvals(t, Y)[:8], [float(z) for z in v[:8]]))
+    return '%d %s' % (len(outs), ' '.join(outs)), finds
+
+
+def _nested_line(case):
+    """protocol line of a nested-flat case (the V vectors are computed as run_nested_flat computes them)"""
+    forest = case['forest']
+    tag = [0]
+    Xs = [_tagged_state(t, tag) for t in forest]
+    kept = [None] * len(forest)
+    ops = []
+    for op in case['ops']:
+        i = op[1]
+        tot = int(sum(int(np.prod(sh)) for l in tree_leaves(forest[i]) for sh in l[2]))
+        if op[0] == 'F':
+            kept[i] = np.array([float(z) for l, x in zip(tree_leaves(forest[i]), _leaf_states(forest[i], Xs[i])) for y in x for z in np.ravel(np.asarray(y, float))])
+            ops.append('F %d' % i)
+        elif op[0] == 'U':
+            ops.append('U %d' % i)
+        else:
+            base = kept[i] if kept[i] is not None and len(kept[i]) == tot else np.arange(tot, dtype=float)
+            v = base * 2.0 + 1.0
+            v = np.concatenate([v, [7.5] * op[2]]) if op[2] > 0 else v[:max(0, tot + op[2])]
+            ops.append('V %d %s' % (i, enc_list(v.tolist())))
+    return 'flat.nest %d %s %d %s' % (len(forest), ' '.join(_enc_tree(t, X) for t, X in zip(forest, Xs)), len(ops), ' '.join(ops))
+
+
+def _leaf_states(t, X):
+    return [X] if t[0] == 'L' else [l for k, x in zip(t[2], X) for l in _leaf_states(k, x)]
+
+
+def nested_flat_cases(ctx, res, oracle_only, nmul=1):
+    rng = ctx.rng
+    cases = nested_witnesses() + [gen_nested_case(rng) for _ in range(ctx.n(220, 4000) * nmul)]
+    lines, keep = [], []
+    for c in cases:
+        ids_all = [i for t in c['forest'] for i in tree_ids(t)]
+        distinct = len(set(ids_all)) == len(ids_all)
+        impl, finds = run_nested_flat(c)
+        dmax = max(tree_depth(t) for t in c['forest'])
+        res.case(('nested-flat', repr(c['forest']), repr(c['ops'])), len(c['ops']) >= 2)
+        res.count('nested-flat:depth:%d' % dmax); res.count('nested-flat:trees:%d' % len(c['forest']))
+        res.count('nested-flat:' + ('distinct-objects' if distinct else 'same-object-twice'))
+        for key, what, obs, req in finds[:2]:
+            res.violate(key, what, c, obs, req)
+        if impl is not None:
+            lines.append(_nested_line(c)); keep.append((c, impl))
+    if ctx.driver_ok and not oracle_only and lines:
+        for (c, impl), line in zip(keep, vlib.run_driver(PROP, lines)):
+            t = Toks(line)
+            got = ' '.join(t.t[1:]) if t.ok else 'err ' + str(t.err)
+            if got != impl:
+                res.disagree('forest of nested couplers, interleaved flattenX / unflattenX: flat vectors, sizes on record per Coupler, delivered trees', c, impl[:500], got[:500])
+            else:
+                res.count('nested-flat-validated')
+
+
 # ====================================================================== corr
 def corr(ctx, oracle_only=False, nmul=1):
     res = Result()
@@ -1184,6 +1535,7 @@ def corr(ctx, oracle_only=False, nmul=1):
     flatten_cases(ctx, res, oracle_only)
     layout_cases(ctx, res, oracle_only, nmul)
     hist_cases(ctx, res, oracle_only, nmul)
+    nested_flat_cases(ctx, res, oracle_only, nmul)
     return res
 
 
@@ -1252,6 +1604,11 @@ def replay(ctx, entry):
         return _replay_flatten(c)
     if c.get('kind') == 'coupler-hist':
         return _replay_hist(c)
+    if c.get('kind') == 'nested-flat':
+        _, finds = run_nested_flat(c)
+        for f in finds:
+            print('  ', f[0], f[1][:300])
+        return not finds
     if c.get('kind') == 'layout-run':
         res = Result()
         layout_oracle(res, c, layout_run(c))
@@ -1268,6 +1625,8 @@ def replay(ctx, entry):
             X0[-1][-1] = float(c['t0'])
     case = dict(clock=bool(c.get('clock')), mode=c['mode'], t0=c['t0'], sim=c['sim'], mn=c['mn'], mx=c['mx'], entry=c['entry'], iterator=c['iterator'], wrap=c['wrap'],
                 props=[[conv(v) for v in p] for p in c['proposals']], stops=c['stops'], ravel=c['ravel'], X0=X0, dkind=c['dkind'])
+    if 'topology' in c:
+        case['topology'] = c['topology']
     res = Result()
     oracle(res, case, real_run(case), describe(case))
     for v in res.violations:
